@@ -2,6 +2,8 @@ CONSTANTS Vocab <- VocabC
           MaxAdds = 3
           MaxCrashes = 2
           AtomicSave = FALSE
+          InitDisks <- InitDisksC
+          AppendOnly = FALSE
 INIT DFInit
 NEXT DFNext
 INVARIANTS NeverLosesExceptKnown
